@@ -3,8 +3,10 @@ package sim
 import (
 	"errors"
 	"io"
+	"net"
 	"sync"
 	"sync/atomic"
+	"time"
 )
 
 var (
@@ -411,3 +413,81 @@ func (h *half) Inject(b []byte) {
 	h.log = append(h.log, rec)
 	h.mu.Unlock()
 }
+
+// net.Conn plumbing so that an End can be handed out by a net.Listener.
+type simAddr struct{}
+
+func (simAddr) Network() string { return "sim" }
+func (simAddr) String() string  { return "sim" }
+
+func (e *End) LocalAddr() net.Addr                { return simAddr{} }
+func (e *End) RemoteAddr() net.Addr               { return simAddr{} }
+func (e *End) SetDeadline(t time.Time) error      { return nil }
+func (e *End) SetReadDeadline(t time.Time) error  { return nil }
+func (e *End) SetWriteDeadline(t time.Time) error { return nil }
+
+// Listener is an in-memory net.Listener fed by the test.
+type Listener struct {
+	mu     sync.Mutex
+	conns  chan net.Conn
+	done   chan struct{}
+	closes int
+	err    error
+	taken  []net.Conn
+}
+
+// Accepted lists the connections Accept has handed out so far.
+func (l *Listener) Accepted() []net.Conn {
+	l.mu.Lock()
+	defer l.mu.Unlock()
+	return append([]net.Conn(nil), l.taken...)
+}
+
+func NewListener() *Listener {
+	return &Listener{conns: make(chan net.Conn), done: make(chan struct{})}
+}
+
+// Offer hands a connection to a pending Accept (blocks until one takes it or the listener closes).
+func (l *Listener) Offer(c net.Conn) bool {
+	select {
+	case l.conns <- c:
+		return true
+	case <-l.done:
+		return false
+	}
+}
+
+// Fail makes the pending and later Accept calls fail with err.
+func (l *Listener) Fail(err error) {
+	l.mu.Lock()
+	defer l.mu.Unlock()
+	if l.err == nil {
+		l.err = err
+		close(l.done)
+	}
+}
+
+func (l *Listener) Accept() (net.Conn, error) {
+	select {
+	case c := <-l.conns:
+		l.mu.Lock()
+		l.taken = append(l.taken, c)
+		l.mu.Unlock()
+		return c, nil
+	case <-l.done:
+		l.mu.Lock()
+		defer l.mu.Unlock()
+		return nil, l.err
+	}
+}
+
+func (l *Listener) Close() error {
+	l.mu.Lock()
+	l.closes++
+	l.mu.Unlock()
+	l.Fail(errors.New("sim: listener closed"))
+	return nil
+}
+
+func (l *Listener) Closes() int    { l.mu.Lock(); defer l.mu.Unlock(); return l.closes }
+func (l *Listener) Addr() net.Addr { return simAddr{} }
